@@ -1,4 +1,5 @@
 import QuantemModel.Props.C01
+import QuantemModel.Lemmas.SerializeInd
 /-!
 C14 — serializer skip lists, for the executable model of serialize.py.
 Only property theorems and non-vacuity examples live here.
@@ -126,49 +127,6 @@ theorem attrs_induction (P : List (String × Val) → Prop) (hnil : P [])
   | (k, .tuple xs) :: rest => hother k _ rest rfl (attrs_induction P hnil hobj hother rest)
   | (k, .set xs) :: rest => hother k _ rest rfl (attrs_induction P hnil hobj hother rest)
   | (k, .dict kvs) :: rest => hother k _ rest rfl (attrs_induction P hnil hobj hother rest)
-
-/-- skip lists only act on attributes of objects: a value that contains no object is written
-identically whatever the skip lists -/
-theorem vals_induction (P : Val → Prop) (Ps : List Val → Prop) (Pk : List (String × Val) → Prop)
-    (hleaf : ∀ v, (match v with | .list _ | .tuple _ | .set _ | .dict _ | .obj .. => False | _ => True) → P v)
-    (hlist : ∀ xs, Ps xs → P (.list xs)) (htuple : ∀ xs, Ps xs → P (.tuple xs)) (hset : ∀ xs, Ps xs → P (.set xs))
-    (hdict : ∀ kvs, Pk kvs → P (.dict kvs)) (hobj : ∀ cls kvs, Pk kvs → P (.obj cls kvs))
-    (hsnil : Ps []) (hscons : ∀ v xs, P v → Ps xs → Ps (v :: xs))
-    (hknil : Pk []) (hkcons : ∀ k v kvs, P v → Pk kvs → Pk ((k, v) :: kvs)) :
-    (∀ v, P v) ∧ (∀ xs, Ps xs) ∧ (∀ kvs, Pk kvs) := by
-  have key : (∀ v, P v) ∧ (∀ xs, Ps xs) ∧ (∀ kvs, Pk kvs) := by
-    refine ⟨?_, ?_, ?_⟩
-    · intro v
-      exact Val.rec (motive_1 := P) (motive_2 := Ps) (motive_3 := Pk) (motive_4 := fun kv => P kv.2)
-        (fun s => hleaf _ trivial) (fun dt s => hleaf _ trivial) (fun p => hleaf _ trivial)
-        (fun dt sh d => hleaf _ trivial) (fun k c t => hleaf _ trivial) (fun c t => hleaf _ trivial)
-        (fun p => hleaf _ trivial) (fun b => hleaf _ trivial) (hleaf _ trivial) (fun n l => hleaf _ trivial)
-        (fun xs ih => hlist xs ih) (fun xs ih => htuple xs ih) (fun xs ih => hset xs ih)
-        (fun kvs ih => hdict kvs ih) (fun cls kvs ih => hobj cls kvs ih)
-        hsnil (fun v xs ihv ihs => hscons v xs ihv ihs)
-        hknil (fun kv kvs ihv ihs => hkcons kv.1 kv.2 kvs ihv ihs)
-        (fun k v ih => ih) v
-    · intro xs
-      exact Val.rec_1 (motive_1 := P) (motive_2 := Ps) (motive_3 := Pk) (motive_4 := fun kv => P kv.2)
-        (fun s => hleaf _ trivial) (fun dt s => hleaf _ trivial) (fun p => hleaf _ trivial)
-        (fun dt sh d => hleaf _ trivial) (fun k c t => hleaf _ trivial) (fun c t => hleaf _ trivial)
-        (fun p => hleaf _ trivial) (fun b => hleaf _ trivial) (hleaf _ trivial) (fun n l => hleaf _ trivial)
-        (fun xs ih => hlist xs ih) (fun xs ih => htuple xs ih) (fun xs ih => hset xs ih)
-        (fun kvs ih => hdict kvs ih) (fun cls kvs ih => hobj cls kvs ih)
-        hsnil (fun v xs ihv ihs => hscons v xs ihv ihs)
-        hknil (fun kv kvs ihv ihs => hkcons kv.1 kv.2 kvs ihv ihs)
-        (fun k v ih => ih) xs
-    · intro kvs
-      exact Val.rec_2 (motive_1 := P) (motive_2 := Ps) (motive_3 := Pk) (motive_4 := fun kv => P kv.2)
-        (fun s => hleaf _ trivial) (fun dt s => hleaf _ trivial) (fun p => hleaf _ trivial)
-        (fun dt sh d => hleaf _ trivial) (fun k c t => hleaf _ trivial) (fun c t => hleaf _ trivial)
-        (fun p => hleaf _ trivial) (fun b => hleaf _ trivial) (hleaf _ trivial) (fun n l => hleaf _ trivial)
-        (fun xs ih => hlist xs ih) (fun xs ih => htuple xs ih) (fun xs ih => hset xs ih)
-        (fun kvs ih => hdict kvs ih) (fun cls kvs ih => hobj cls kvs ih)
-        hsnil (fun v xs ihv ihs => hscons v xs ihv ihs)
-        hknil (fun kv kvs ihv ihs => hkcons kv.1 kv.2 kvs ihv ihs)
-        (fun k v ih => ih) kvs
-  exact key
 
 theorem encode_noObj (sk : Skip) :
     (∀ v, noObj v = true → encode sk v = encode {} v) ∧
